@@ -302,7 +302,7 @@ func (w *world) fidOf(obj interface{}) int {
 
 // ---- set-up -------------------------------------------------------------------------------------
 
-func newWorld(rng *hlib.Rng, proto, nnodes, max, numConns int, ks string, stmts []string, params []int, realIDs bool) (*world, error) {
+func newWorld(rng *hlib.Rng, proto, nnodes, max, numConns int, ks string, stmts []string, params []int, realIDs bool, timeout time.Duration) (*world, error) {
 	w := &world{rng: rng, max: max, ks: ks, stmts: stmts, params: params, realIDs: realIDs,
 		ev: make(chan hev, 4096), objFid: map[interface{}]int{}, running: map[string]bool{}, nextErr: 100,
 		idsFor: map[string][][]byte{}, creates: map[string]int{}, gones: map[string]int{},
@@ -351,7 +351,7 @@ func newWorld(rng *hlib.Rng, proto, nnodes, max, numConns int, ks string, stmts 
 	cfg := gocql.NewCluster(w.ips[0])
 	cfg.Dialer = w.net.Dialer()
 	cfg.ProtoVersion = proto
-	cfg.Timeout = 120 * time.Second
+	cfg.Timeout = timeout
 	cfg.ConnectTimeout = 10 * time.Second
 	cfg.NumConns = numConns
 	cfg.WriteCoalesceWaitTime = 0 // every frame is one Write call
@@ -1078,6 +1078,12 @@ func (w *world) mkID(fr *frec) []byte {
 }
 
 func (w *world) actAnswerPrepare(fr *frec, ok bool, cnt int) bool {
+	return w.actAnswerPrepareKind(fr, ok, cnt, -1)
+}
+
+// forceKind >= 0 picks how the PREPARE fails: 0 ERROR frame, 1 wrong frame kind, 2 undecodable RESULT,
+// 4 no answer at all (the request times out), 5 the node closes the connection the PREPARE came in on
+func (w *world) actAnswerPrepareKind(fr *frec, ok bool, cnt int, forceKind int) bool {
 	w.stepping = true
 	fr.answered = true
 	w.answeredP++
@@ -1109,6 +1115,9 @@ func (w *world) actAnswerPrepare(fr *frec, ok bool, cnt int) bool {
 		w.header.labs = append(w.header.labs, fmt.Sprintf("SLab (LPrepFail %d%%nat %d)", fr.fid, fr.errCode),
 			fmt.Sprintf("SLab (LClose %d%%nat)", fr.fid))
 		kind := w.rng.Intn(4)
+		if forceKind >= 0 {
+			kind = forceKind
+		}
 		for _, x := range waiters {
 			x.pendingWake = true
 			x.scriptedErr = true
@@ -1118,7 +1127,7 @@ func (w *world) actAnswerPrepare(fr *frec, ok bool, cnt int) bool {
 			w.running[fmt.Sprintf("x%d", x.idx)] = true
 		}
 		fr.failKind = kind
-		locked := w.lockBudget > 0 && len(waiters) > 0 && w.rng.Chance(60)
+		locked := w.lockBudget > 0 && len(waiters) > 0 && kind < 4 && w.rng.Chance(60)
 		if locked {
 			// freeze the cache: whoever needs preparedLRU.mu (the winner's remove, any lookup) waits
 			w.lockBudget--
@@ -1132,6 +1141,9 @@ func (w *world) actAnswerPrepare(fr *frec, ok bool, cnt int) bool {
 			fr.prepConn.Reply(fr.prepReq, node.Void{})
 		case 2: // RESULT prepared cut short: parseFrame fails
 			fr.prepConn.Reply(fr.prepReq, node.RawMessage{Opcode: node.OpResult, Body: new(node.Buf).Int(node.KindPrepared).Short(9).Raw([]byte{1, 2}).B})
+		case 4: // never answered: Conn.exec gives up after ClusterConfig.Timeout
+		case 5: // connection lost
+			fr.prepConn.Close()
 		}
 		if locked {
 			w.lockedWindow(fr)
@@ -1279,9 +1291,17 @@ type scenCfg struct {
 	proto, nnodes, max, numConns, nstmts, nsteps, maxExec int
 	ks                                                    string
 	lockedFails                                           int
+	endMode                                               int // 0 nothing, 4 PREPARE times out, 5 connection lost while the PREPARE is in flight
 	realIDs, writeFault, collide                          bool
 	pFail, pUnprep, pWrongCount, pGroup, pBatch           int
 	groupMax                                              int
+}
+
+func (c scenCfg) timeout() time.Duration {
+	if c.endMode == 4 {
+		return 1500 * time.Millisecond // everything else in such a scenario is answered within microseconds
+	}
+	return 120 * time.Second
 }
 
 func (w *world) pendingPrepares() []*frec {
@@ -1302,6 +1322,79 @@ func (w *world) sentExecs() []*xrec {
 		}
 	}
 	return xs
+}
+
+// endEpisode: several executors wait for one PREPARE which then fails because the request times out
+// (endMode 4) or because the connection is lost (endMode 5, the pool reconnects); afterwards the statement is
+// executed again and must be prepared again and succeed.
+func (w *world) endEpisode(c scenCfg) bool {
+	host, stmt := -1, -1
+pick:
+	for h := 0; h < c.nnodes; h++ {
+		for st := 0; st < c.nstmts; st++ {
+			if w.absent(h, st) {
+				host, stmt = h, st
+				break pick
+			}
+		}
+	}
+	if host < 0 {
+		return true
+	}
+	mk := func(int) xentry { return xentry{stmt: stmt, prep: true, nvals: w.params[stmt], bind: w.rng.Chance(35)} }
+	n := 2 + w.rng.Intn(4)
+	var ok bool
+	if c.max >= 0 {
+		ok = w.actGroup(n, host, mk)
+	} else {
+		ok = w.actStart(false, host, []xentry{mk(0)})
+	}
+	if !ok {
+		return false
+	}
+	pp := w.pendingPrepares()
+	if len(pp) != 1 {
+		return true
+	}
+	fr := pp[0]
+	before := w.nodes[host].TotalConns()
+	if !w.actAnswerPrepareKind(fr, false, 0, c.endMode) {
+		return false
+	}
+	w.stats[fmt.Sprintf("end-mode-%d", c.endMode)]++
+	if c.endMode == 5 {
+		// wait for the pool to have replaced the connection
+		okRe := w.net.WaitFor(10*time.Second, func() bool {
+			return w.nodes[host].TotalConns() > before && gocql.VerifC14PoolSize(w.sess, w.hostIDs[host]) == c.numConns
+		})
+		if !okRe {
+			w.stats["no-reconnect"]++
+			return true
+		}
+	}
+	// the statement again: not remembered, prepared again, succeeds
+	if !w.actStart(false, host, []xentry{{stmt: stmt, prep: true, nvals: w.params[stmt]}}) {
+		return false
+	}
+	last := w.execs[len(w.execs)-1]
+	for guard := 0; guard < 20; guard++ {
+		pp, se := w.pendingPrepares(), w.sentExecs()
+		if len(pp) > 0 {
+			if !w.actAnswerPrepare(pp[0], true, w.params[pp[0].stmt]) {
+				return false
+			}
+		} else if len(se) > 0 {
+			if !w.actAnswerExec(se[0], 0, nil) {
+				return false
+			}
+		} else {
+			break
+		}
+	}
+	if !last.done || last.err != nil {
+		w.violate("eventual-success", fmt.Sprintf("after the failed PREPARE (mode %d) the next execution of the statement ended with done=%v err=%v", c.endMode, last.done, last.err))
+	}
+	return true
 }
 
 func (w *world) absent(host, stmt int) bool {
@@ -1341,6 +1434,9 @@ func (w *world) randEntry(c scenCfg, stmt int, forBatch bool) xentry {
 		if en.nvals < 0 {
 			en.nvals = 0
 		}
+	}
+	if forBatch && r.Chance(25) {
+		en.bind, en.nvals = false, 0 // a statement without arguments goes into the batch as text
 	}
 	if forBatch && !en.bind && en.nvals == 0 {
 		en.prep = false
@@ -1482,6 +1578,9 @@ func (w *world) drive(c scenCfg) {
 			}
 		}
 	}
+	if alive && c.endMode >= 4 {
+		alive = w.endEpisode(c)
+	}
 	if alive {
 		for _, x := range w.execs {
 			if !x.done {
@@ -1542,7 +1641,7 @@ func runScenario(seed uint64, c scenCfg) scenResult {
 		stmts = append(stmts, p.s)
 		params = append(params, p.n)
 	}
-	w, err := newWorld(rng, c.proto, c.nnodes, c.max, c.numConns, c.ks, stmts, params, c.realIDs)
+	w, err := newWorld(rng, c.proto, c.nnodes, c.max, c.numConns, c.ks, stmts, params, c.realIDs, c.timeout())
 	if err == nil {
 		w.collide = c.collide
 		w.lockBudget = c.lockedFails
@@ -1569,7 +1668,7 @@ func scenarioCases(o *hlib.Out) []pcase {
 	seeds := make([]uint64, n)
 	for i := range cfgs {
 		r := o.Rng
-		c := scenCfg{proto: 4 + r.Intn(5)/4, ks: []string{"ks1", "ks1", "ks1", ""}[r.Intn(4)], lockedFails: r.Intn(3), nnodes: 1 + r.Intn(2), max: 1 + r.Intn(4), numConns: 1 + r.Intn(2), nstmts: 1 + r.Intn(4),
+		c := scenCfg{proto: 4 + r.Intn(5)/4, ks: []string{"ks1", "ks1", "ks1", ""}[r.Intn(4)], lockedFails: r.Intn(3), nnodes: 1 + r.Intn(3), max: 1 + r.Intn(4), numConns: 1 + r.Intn(2), nstmts: 1 + r.Intn(4),
 			nsteps: 25 + r.Intn(50), maxExec: 6 + r.Intn(20), realIDs: r.Chance(40),
 			pFail: 25, pUnprep: 30, pWrongCount: 12, pGroup: 25, pBatch: 20, groupMax: 8, writeFault: r.Chance(30), collide: r.Chance(6)}
 		switch i % 9 {
@@ -1579,6 +1678,13 @@ func scenarioCases(o *hlib.Out) []pcase {
 			c.max, c.nstmts = 1, 3+r.Intn(2)
 		case 6: // batches against a server that hands out one id per host: which statement does UNPREPARED evict?
 			c.collide, c.nstmts, c.pBatch, c.pUnprep, c.pGroup, c.max, c.pFail = true, 3+r.Intn(2), 70, 70, 5, 3+r.Intn(2), 10
+		case 1, 4: // a PREPARE with waiters runs into the request timeout / loses its connection
+			if i%2 == 0 {
+				c.endMode, c.writeFault = 4+(i/2)%2, false
+				if c.endMode == 4 {
+					c.lockedFails, c.nsteps = 0, 10+r.Intn(15)
+				}
+			}
 		case 7:
 			c.max = 0 // no limit
 		case 8:
